@@ -298,8 +298,13 @@ class Solo:
                 self.m.recv_data(meta[1], meta[2])
             elif kind == "rst":
                 self.m.recv_rst(meta[1])
-            elif kind == "push" and meta[2] not in rst_sids and meta[1] not in rst_sids:
-                self.m.recv_push(meta[1], meta[2])
+            elif kind == "push" and meta[1] not in rst_sids:
+                if meta[2] not in rst_sids:
+                    self.m.recv_push(meta[1], meta[2])
+                elif self.m.status(meta[2]) == "unused_high" and not self.m.is_local_id(meta[2]):
+                    # refused: reserved by the PUSH_PROMISE, closed by the RST_STREAM that absorb_output()
+                    # is about to see.  (RST_STREAM in answer to re-promising a used id changes nothing.)
+                    self.m.recv_push(meta[1], meta[2], refused=True)
             elif kind == "goaway":
                 self.m.closed = True
         self.absorb_output(o)
